@@ -12,8 +12,8 @@ every draw the generator can deliver, in exact arithmetic over any ordered field
 floor/ceiling claim under a rounding contract.
 `…_spec_iff`: each Bool Spec oracle the harness evaluates on the implementation's output is equivalent to the Prop
 of the theorems; `…_meets_spec`: the model's output satisfies it.
-Open findings (model = code as it is, `_partial` + `_counterexample`): D7d empty request, D7e non-contiguous cross
-table, D7f negative axis.  `…_prerepair_counterexample`: the function before fix fc545079 (D7a/D7b/D7c).
+`…_prerepair_counterexample`: the functions before the fixes fc545079 (D7a/D7b/D7c), f1943417 (D7d empty request),
+5d3f529a (D7e non-contiguous cross table), 5396d924 (D7f negative axis); no finding is open, no `_partial` is left.
 -/
 import PybropsModel.Lemmas.SamplingSusFinal
 import PybropsModel.Lemmas.SamplingTiled
@@ -28,63 +28,69 @@ set_option autoImplicit false
 namespace C17
 open Sampling
 
-/-! ## stochastic universal sampling (the code after fix fc545079) -/
+/-! ## stochastic universal sampling (the code after fixes fc545079 and f1943417) -/
 section sus
 variable {α : Type} [Field α] [LinearOrder α] [IsStrictOrderedRing α]
 
-/-- the inputs of the quantifier: weights non-negative with positive sum, at least one draw requested -/
-def SusValid (p : List α) (size : List Nat) : Prop :=
-  (∀ x ∈ p, 0 ≤ x) ∧ 0 < Np.sum p ∧ 0 < size.prod
+/-- the inputs of the quantifier: weights non-negative with positive sum; any size, the empty request included -/
+def SusValid (p : List α) : Prop := (∀ x ∈ p, 0 ≤ x) ∧ 0 < Np.sum p
 
-/-- what numpy and the generator can hand to the function: a sort order of `p` (ties in any order),
-    an offset in `[0, ptr_dist)` (0 included), a rearrangement of the `k` draws -/
+/-- what numpy and the generator can hand to the function: a sort order of `p` (ties in any order), a
+    rearrangement of the `k` draws and — when there is anything to draw — an offset in `[0, ptr_dist)`, 0 included -/
 def SusOracle (p : List α) (size : List Nat) (sigma : List Nat) (o : α) (perm : List Nat) : Prop :=
   isPerm sigma p.length = true ∧ nonIncreasing (sigma.map (fun i => p.getD i 0)) = true ∧
-  0 ≤ o ∧ o < Np.sum p / ((size.prod : Nat) : α) ∧ isPerm perm size.prod = true
+  (0 < size.prod → 0 ≤ o ∧ o < Np.sum p / ((size.prod : Nat) : α)) ∧ isPerm perm size.prod = true
 
-/-
-FULL STATEMENT (false of the model of the code as it is, see `sus_size_zero_counterexample`; finding D7d):
-  the theorem below without `0 < size.prod` in `SusValid` — "all output sizes" includes the empty request
-  (`size = 0`, `size = (2, 0)`), for which numpy's own samplers and `tiled_choice` return an empty array.
--/
-/-- **Exactly the requested number of draws.**  The function never fails and returns `prod(size)` indices,
-    whatever the weights, the size, the tie order, the offset (0 included) and the shuffle.
-    (The returned array is this flat list reshaped to `size`.) -/
-theorem sus_returns_requested_number_partial (p : List α) (size sigma perm : List Nat) (o : α)
-    (hv : SusValid p size) (ho : SusOracle p size sigma o perm) :
+/-- **Exactly the requested number of draws, for every size — the empty request included.**  The function never
+    fails and returns `prod(size)` indices, whatever the weights, the size, the tie order, the offset (0
+    included) and the shuffle.  (The returned array is this flat list reshaped to `size`.) -/
+theorem sus_returns_requested_number (p : List α) (size sigma perm : List Nat) (o : α)
+    (hv : SusValid p) (ho : SusOracle p size sigma o perm) :
     ∃ idx, susDraws p size sigma o perm = .ok idx ∧ idx.length = size.prod := by
-  obtain ⟨hnn, hpos, hdraws⟩ := hv
-  obtain ⟨hsp, hss, hlo, hhi, hpm⟩ := ho
-  obtain ⟨sel, hsel, hlen⟩ := susIdx_defined p size.prod sigma o hnn hpos hdraws hsp hss hlo hhi
-  have hperm : perm.Perm (List.range sel.length) := by
-    rw [hlen]; exact (isPerm_iff perm size.prod).mp hpm
-  refine ⟨applyPerm perm sel, (susDraws_ok_iff p size sigma o perm _).mpr ⟨sel, hsel, hperm, rfl⟩, ?_⟩
-  rw [applyPerm_length perm sel hperm, hlen]
+  obtain ⟨hnn, hpos⟩ := hv
+  obtain ⟨hsp, hss, hoff, hpm⟩ := ho
+  by_cases hk : size.prod = 0
+  · have hperm : perm.Perm (List.range ([] : List Nat).length) := by
+      have := (isPerm_iff perm size.prod).mp hpm
+      rwa [hk] at this
+    refine ⟨applyPerm perm [], (susDraws_ok_iff p size sigma o perm _).mpr ⟨[], by rw [hk, susIdx_zero], hperm, rfl⟩, ?_⟩
+    rw [applyPerm_length perm [] hperm, hk]; rfl
+  · have hdraws : 0 < size.prod := Nat.pos_of_ne_zero hk
+    obtain ⟨hlo, hhi⟩ := hoff hdraws
+    obtain ⟨sel, hsel, hlen⟩ := susIdxCore_defined p size.prod sigma o hnn hpos hdraws hsp hss hlo hhi
+    have hperm : perm.Perm (List.range sel.length) := by
+      rw [hlen]; exact (isPerm_iff perm size.prod).mp hpm
+    refine ⟨applyPerm perm sel, (susDraws_ok_iff p size sigma o perm _).mpr
+      ⟨sel, by rw [susIdx_pos p _ sigma o hk]; exact hsel, hperm, rfl⟩, ?_⟩
+    rw [applyPerm_length perm sel hperm, hlen]
 
-/-- **D7d.**  A request of zero draws (`size = 0`) does not return an empty array: `ptr_dist = tot/0 = inf` and
-    `rng.uniform(0.0, inf)` raises `OverflowError` (model: error tag `value`), for any valid weights. -/
-theorem sus_size_zero_counterexample :
-    (∀ x ∈ ([1, 2] : List ℚ), 0 ≤ x) ∧ 0 < Np.sum ([1, 2] : List ℚ) ∧
-    susDraws (α := ℚ) [1, 2] [0] [1, 0] 0 [] = .error "value" ∧
-    susDraws (α := ℚ) [1, 2] [2, 0] [1, 0] 0 [] = .error "value" := by
-  refine ⟨by decide, by decide +kernel, ?_, ?_⟩ <;> rfl
+/-- **D7d, before fix f1943417** (and before fc545079 alike): a request of zero draws raised — `ptr_dist = tot/0 = inf`,
+    `rng.uniform(0.0, inf)` raises `OverflowError` (model: error tag `value`) — for any valid weights. -/
+theorem sus_size_zero_prerepair_counterexample :
+    SusValid (α := ℚ) [1, 2] ∧
+    susIdxPrerepair (α := ℚ) [1, 2] ([0] : List Nat).prod [1, 0] 0 = .error "value" ∧
+    susIdxPrerepair (α := ℚ) [1, 2] ([2, 0] : List Nat).prod [1, 0] 0 = .error "value" ∧
+    susDraws (α := ℚ) [1, 2] [2, 0] [1, 0] 0 [] = .ok [] := by
+  refine ⟨⟨by decide, by decide +kernel⟩, ?_, ?_, ?_⟩ <;> rfl
 
 /-- the length claim for any successful run of the model (this is what `reshape(size)` needs) -/
 theorem sus_length (p : List α) (size sigma perm idx : List Nat) (o : α)
     (h : susDraws p size sigma o perm = .ok idx) : idx.length = size.prod := by
-  obtain ⟨sel, hsel, hperm, rfl⟩ := (susDraws_ok_iff p size sigma o perm idx).mp h
-  rw [applyPerm_length perm sel hperm]
-  exact susIdx_length p size.prod sigma sel o hsel
+  rcases susDraws_cases p size sigma perm idx o h with ⟨hk, rfl⟩ | ⟨_, sel, hsel, hperm, rfl⟩
+  · rw [hk]; rfl
+  · rw [applyPerm_length perm sel hperm]
+    exact susIdxCore_length p size.prod sigma sel o hsel
 
 /-- every draw is an index of the weight vector (so `a[sel]` only returns elements of `a`) -/
 theorem sus_members (p : List α) (size sigma perm idx : List Nat) (o : α)
     (hp : ∀ x ∈ p, 0 ≤ x) (hT : 0 < Np.sum p)
     (h : susDraws p size sigma o perm = .ok idx) : ∀ i ∈ idx, i < p.length := by
-  obtain ⟨sel, hsel, hperm, rfl⟩ := (susDraws_ok_iff p size sigma o perm idx).mp h
+  rcases susDraws_cases p size sigma perm idx o h with ⟨_, rfl⟩ | ⟨_, sel, hsel, hperm, rfl⟩
+  · simp
   intro i hi
   have hi' : i ∈ sel := (applyPerm_perm perm sel hperm).mem_iff.mp hi
-  obtain ⟨hclosed, hlt⟩ := susIdx_closed p size.prod sigma o sel hp hT hsel
-  have hs := sigmaFacts p sigma ((susIdx_ok_iff p size.prod sigma o sel).mp hsel).1
+  obtain ⟨hclosed, hlt⟩ := susIdxCore_closed p size.prod sigma o sel hp hT hsel
+  have hs := sigmaFacts p sigma ((susIdxCore_ok_iff p size.prod sigma o sel).mp hsel).1
   rw [hclosed] at hi'
   simp only [List.mem_map, List.mem_range] at hi'
   obtain ⟨q, ⟨j, hj, rfl⟩, rfl⟩ := hi'
@@ -142,10 +148,13 @@ theorem sus_floor_ceil (p : List α) (size sigma perm idx : List Nat) (o : α)
     (h : susDraws p size sigma o perm = .ok idx) (i : Nat) (hi : i < p.length) :
     (idx.count i : ℤ) = ⌊(size.prod : α) * p[i] / Np.sum p⌋ ∨
     (idx.count i : ℤ) = ⌈(size.prod : α) * p[i] / Np.sum p⌉ := by
-  obtain ⟨sel, hsel, hperm, rfl⟩ := (susDraws_ok_iff p size sigma o perm idx).mp h
-  have hs := sigmaFacts p sigma ((susIdx_ok_iff p size.prod sigma o sel).mp hsel).1
+  rcases susDraws_cases p size sigma perm idx o h with ⟨hk, rfl⟩ | ⟨_, sel, hsel, hperm, rfl⟩
+  · left
+    rw [hk]
+    simp
+  have hs := sigmaFacts p sigma ((susIdxCore_ok_iff p size.prod sigma o sel).mp hsel).1
   obtain ⟨r, hr, rfl⟩ := hs.exists_pos i hi
-  have := susIdx_floor_ceil_pos p size.prod sigma o sel hp hT hsel r hr
+  have := susIdxCore_floor_ceil_pos p size.prod sigma o sel hp hT hsel r hr
   have hg : p.getD sigma[r] 0 = p[sigma[r]] := by simp [hi]
   rw [hg] at this
   rw [(applyPerm_perm perm sel hperm).count_eq]
@@ -263,15 +272,15 @@ theorem sus_rounded_tie_counterexample :
     genuine `RandomState` / `Generator(MT19937)` states) three equal weights and three draws gave the counts
     (0, 1, 2) although every expected count is exactly 1. -/
 theorem sus_offset_zero_prerepair_counterexample :
-    SusValid (α := ℚ) [1, 1, 1] [3] ∧ SusOracle (α := ℚ) [1, 1, 1] [3] [2, 1, 0] 0 [0, 1, 2] ∧
+    SusValid (α := ℚ) [1, 1, 1] ∧ SusOracle (α := ℚ) [1, 1, 1] [3] [2, 1, 0] 0 [0, 1, 2] ∧
     susIdxPrerepair (α := ℚ) [1, 1, 1] 3 [2, 1, 0] 0 = .ok [2, 2, 1] ∧
     ¬ ((([2, 2, 1] : List Nat).count 0 : ℤ) = ⌊((3 : Nat) : ℚ) * 1 / Np.sum [1, 1, 1]⌋ ∨
        (([2, 2, 1] : List Nat).count 0 : ℤ) = ⌈((3 : Nat) : ℚ) * 1 / Np.sum [1, 1, 1]⌉) ∧
     ¬ ((([2, 2, 1] : List Nat).count 2 : ℤ) = ⌊((3 : Nat) : ℚ) * 1 / Np.sum [1, 1, 1]⌋ ∨
        (([2, 2, 1] : List Nat).count 2 : ℤ) = ⌈((3 : Nat) : ℚ) * 1 / Np.sum [1, 1, 1]⌉) := by
   have hs : Np.sum ([1, 1, 1] : List ℚ) = 3 := by decide +kernel
-  refine ⟨⟨by decide, by decide +kernel, by decide⟩,
-    ⟨by decide, by decide +kernel, by decide +kernel, by decide +kernel, by decide⟩, ?_, ?_, ?_⟩
+  refine ⟨⟨by decide, by decide +kernel⟩,
+    ⟨by decide, by decide +kernel, fun _ => ⟨by decide +kernel, by decide +kernel⟩, by decide⟩, ?_, ?_, ?_⟩
   · rw [← toOption_eq_some]; decide +kernel
   · rw [hs]; norm_num
   · rw [hs]; norm_num
@@ -437,7 +446,7 @@ theorem outcross_rows_antitone (nrow ncol : Nat) (x y : List β) (orders : List 
 /-- **It stops only at a local optimum**: in the returned table no exchange of two entries (any two
     positions, in either order, equal positions and positions outside the table included) lowers the
     number of repeated individuals. -/
-theorem outcross_contiguous_local_opt_partial (nrow ncol : Nat) (x y : List β) (orders : List (List (Nat × Nat)))
+theorem outcross_local_opt (nrow ncol : Nat) (x y : List β) (orders : List (List (Nat × Nat)))
     (h : outcross nrow ncol x orders = .ok y) (i j : Nat) :
     score nrow ncol y ≤ score nrow ncol (swap y i j) := by
   obtain ⟨_, hord, hc⟩ := (outcross_ok_iff nrow ncol x orders y).mp h
@@ -462,47 +471,24 @@ theorem outcross_terminates (nrow ncol : Nat) (x : List β) (orders : List (List
   obtain ⟨y, hy⟩ := climb_terminates (score nrow ncol) orders x hn
   exact ⟨y, (outcross_ok_iff nrow ncol x orders y).mpr ⟨hx, hord, hy⟩⟩
 
-/-! #### every memory layout (`outcrossNd`): what holds for all cross tables, what needs a C-contiguous one -/
+/-- **D7e, before fix 5d3f529a.**  On a table that is not C-contiguous (Fortran order, a column slice, …)
+    `xconfig.ravel()` was a copy: the table `[[1,1],[2,2]]` came back unchanged (2 repeated individuals) although
+    exchanging flat positions 0 and 2 leaves none.  (After the fix `xconfig.flat` writes through: `outcross` and
+    the theorems above hold for every layout — the layout no longer enters the model.) -/
+theorem outcross_noncontiguous_prerepair_counterexample :
+    outcrossPrerepair (β := Nat) false 2 2 [1, 1, 2, 2] [allPairs 4] = .ok [1, 1, 2, 2] ∧
+    score (β := Nat) 2 2 (swap [1, 1, 2, 2] 0 2) < score (β := Nat) 2 2 [1, 1, 2, 2] ∧
+    (outcross (β := Nat) 2 2 [1, 1, 2, 2] [allPairs 4, allPairs 4, allPairs 4]).toOption = some [2, 1, 1, 2] := by
+  refine ⟨by rfl, by decide, by decide⟩
 
-/-- **multiset, total and per-cross counts: every cross table, every layout** -/
-theorem outcross_multiset_and_counts (cc : Bool) (nrow ncol : Nat) (x y : List β) (orders : List (List (Nat × Nat)))
-    (h : outcrossNd cc nrow ncol x orders = .ok y) :
-    y.Perm x ∧ score nrow ncol y ≤ score nrow ncol x ∧ ∀ r, dupCount (row ncol y r) ≤ dupCount (row ncol x r) := by
-  unfold outcrossNd at h
-  split_ifs at h with hc hl
-  · exact ⟨outcross_multiset nrow ncol x y orders h, outcross_score_antitone nrow ncol x y orders h,
-      outcross_rows_antitone nrow ncol x y orders h⟩
-  · injection h with h; subst h
-    exact ⟨List.Perm.refl _, le_refl _, fun _ => le_refl _⟩
-
-/-
-FULL STATEMENT (false of the model of the code as it is, see `outcross_noncontiguous_counterexample`; finding D7e):
-  the theorem below for every layout flag `cc`, not only `cc = true`.
--/
-/-- **It stops only at a local optimum — for a C-contiguous table.** -/
-theorem outcross_local_opt_partial (nrow ncol : Nat) (x y : List β) (orders : List (List (Nat × Nat)))
-    (h : outcrossNd true nrow ncol x orders = .ok y) (i j : Nat) :
-    score nrow ncol y ≤ score nrow ncol (swap y i j) :=
-  outcross_contiguous_local_opt_partial nrow ncol x y orders (by simpa [outcrossNd] using h) i j
-
-/-- **D7e.**  On a table that is not C-contiguous (Fortran order, a column slice, …) `xconfig.ravel()` is a copy:
-    the table `[[1,1],[2,2]]` comes back unchanged (2 repeated individuals) although exchanging flat positions 0
-    and 2 leaves none. -/
-theorem outcross_noncontiguous_counterexample :
-    outcrossNd (β := Nat) false 2 2 [1, 1, 2, 2] [allPairs 4] = .ok [1, 1, 2, 2] ∧
-    score (β := Nat) 2 2 (swap [1, 1, 2, 2] 0 2) < score (β := Nat) 2 2 [1, 1, 2, 2] := by
-  constructor
-  · rfl
-  · decide
-
-/-- the model's output (C-contiguous table) satisfies the outcross clause `OutcrossSpec`, i.e. passes the Spec
-    oracle `c17.spec_outcross` (multiset, per-cross counts, no improving exchange left, total not increased) -/
-theorem outcross_meets_spec_partial {β : Type} [DecidableEq β] (nrow ncol : Nat) (x y : List β)
-    (orders : List (List (Nat × Nat))) (h : outcrossNd true nrow ncol x orders = .ok y) :
+/-- the model's output satisfies the outcross clause `OutcrossSpec`, i.e. passes the Spec oracle
+    `c17.spec_outcross` (multiset, per-cross counts, no improving exchange left, total not increased) -/
+theorem outcross_meets_spec {β : Type} [DecidableEq β] (nrow ncol : Nat) (x y : List β)
+    (orders : List (List (Nat × Nat))) (h : outcross nrow ncol x orders = .ok y) :
     OutcrossSpec nrow ncol x y ∧ (specOutcross nrow ncol x y).ok = true := by
-  obtain ⟨hp, hs, hr⟩ := outcross_multiset_and_counts true nrow ncol x y orders h
   have hspec : OutcrossSpec nrow ncol x y :=
-    ⟨hp, fun r _ => hr r, fun i j _ _ => outcross_local_opt_partial nrow ncol x y orders h i j, hs⟩
+    ⟨outcross_multiset nrow ncol x y orders h, fun r _ => outcross_rows_antitone nrow ncol x y orders h r,
+     fun i j _ _ => outcross_local_opt nrow ncol x y orders h i j, outcross_score_antitone nrow ncol x y orders h⟩
   exact ⟨hspec, (specOutcross_iff _ _ _ _).mpr hspec⟩
 
 /-- Spec oracle = statement -/
@@ -541,32 +527,28 @@ theorem axis_loop_within_slices (shape axis : List Nat) (data out : List β) (pe
     rw [List.map_map] at this
     exact this
 
-/-
-FULL STATEMENT (false of the model of the code as it is, see `axis_negative_axis_counterexample`; finding D7f):
-  the theorem below without `∀ z ∈ axis, 0 ≤ z` — an axis may be given counting from the end (numpy convention).
--/
-/-- **An axis shuffle permutes values only within the requested slices** — for axes given as non-negative
-    integers: for every shape, every such axis list and every sequence of rearrangements the generator
-    produces, the literal loop keeps the array's size and the values found in each requested slice (identified
-    by its coordinates at the requested axes; every index tuple lies in exactly one) are a rearrangement of the
-    values that were in that slice. -/
-theorem axis_shuffle_within_slices_partial (shape : List Nat) (axis : List Int) (data out : List β)
-    (perms : List (List Nat)) (hax : ∀ z ∈ axis, 0 ≤ z)
-    (h : axisShuffleZ shape axis data perms = .ok out) :
+/-- **An axis shuffle permutes values only within the requested slices** — axes of either sign, a negative one
+    counting from the last axis: for every shape, every axis list and every sequence of rearrangements the
+    generator produces, the literal loop keeps the array's size and the values found in each requested slice
+    (identified by its coordinates at the requested axes; every index tuple lies in exactly one) are a
+    rearrangement of the values that were in that slice. -/
+theorem axis_shuffle_within_slices (shape : List Nat) (axis : List Int) (data out : List β)
+    (perms : List (List Nat)) (h : axisShuffleZ shape axis data perms = .ok out) :
     AxisSpec shape (axisReq shape.length axis) data out := by
   unfold axisShuffleZ at h
-  rw [← axisEff_eq_axisReq shape.length axis hax]
-  obtain ⟨hl, hp⟩ := axis_loop_within_slices shape (axisEff axis) data out perms h
+  obtain ⟨hl, hp⟩ := axis_loop_within_slices shape (axisReq shape.length axis) data out perms h
   exact ⟨hl, fun key _ => hp key⟩
 
-/-- **D7f.**  A negative axis is not normalised; `sliceaxisix` never matches it, so it is silently ignored:
-    `axis_shuffle(a, -2)` on a 2×2 array (requested slices: the rows) shuffles the whole array along axis 0 —
-    with the rearrangement `[1, 0]` the rows change places and both requested slices hold foreign values. -/
-theorem axis_negative_axis_counterexample :
-    axisShuffleZ (β := Nat) [2, 2] [-2] [0, 1, 2, 3] [[1, 0]] = .ok [2, 3, 0, 1] ∧
+/-- **D7f, before fix 5396d924.**  A negative axis was not normalised; `sliceaxisix` never matched it, so it was
+    silently ignored: `axis_shuffle(a, -2)` on a 2×2 array (requested slices: the rows) shuffled the whole array
+    along axis 0 — with the rearrangement `[1, 0]` the rows changed places and both requested slices held foreign
+    values.  The code as it is now shuffles inside each row. -/
+theorem axis_negative_axis_prerepair_counterexample :
+    axisShuffleZPrerepair (β := Nat) [2, 2] [-2] [0, 1, 2, 3] [[1, 0]] = .ok [2, 3, 0, 1] ∧
     axisReq 2 [-2] = [0] ∧
-    ¬ AxisSpec (β := Nat) [2, 2] (axisReq 2 [-2]) [0, 1, 2, 3] [2, 3, 0, 1] := by
-  refine ⟨by rfl, by decide, ?_⟩
+    ¬ AxisSpec (β := Nat) [2, 2] (axisReq 2 [-2]) [0, 1, 2, 3] [2, 3, 0, 1] ∧
+    (axisShuffleZ (β := Nat) [2, 2] [-2] [0, 1, 2, 3] [[1, 0], [0, 1]]).toOption = some [1, 0, 2, 3] := by
+  refine ⟨by rfl, by decide, ?_, by decide⟩
   rw [← specAxis_iff]
   decide
 
@@ -596,12 +578,11 @@ theorem axis_shuffle_defined (shape axis : List Nat) (data : List β) (perms : L
   exact ⟨_, (axisShuffle_ok_iff shape axis data perms _).mpr
     ⟨hlen, hne, Or.inr ⟨f, hf, hn, fun q hq => (isPerm_iff q _).mp (hp q hq), rfl⟩⟩⟩
 
-/-- the model's output (non-negative axes) passes the Spec oracle `c17.spec_axis` -/
-theorem axis_meets_spec_partial {β : Type} [Inhabited β] [DecidableEq β] (shape : List Nat) (axis : List Int)
-    (data out : List β) (perms : List (List Nat)) (hax : ∀ z ∈ axis, 0 ≤ z)
-    (h : axisShuffleZ shape axis data perms = .ok out) :
+/-- the model's output (axes of either sign) passes the Spec oracle `c17.spec_axis` -/
+theorem axis_meets_spec {β : Type} [Inhabited β] [DecidableEq β] (shape : List Nat) (axis : List Int)
+    (data out : List β) (perms : List (List Nat)) (h : axisShuffleZ shape axis data perms = .ok out) :
     specAxis shape (axisReq shape.length axis) data out = true :=
-  (specAxis_iff _ _ _ _).mpr (axis_shuffle_within_slices_partial shape axis data out perms hax h)
+  (specAxis_iff _ _ _ _).mpr (axis_shuffle_within_slices shape axis data out perms h)
 
 /-- Spec oracle = statement -/
 theorem axis_spec_iff {β : Type} [DecidableEq β] (shape axis : List Nat) (before after : List β) :
@@ -611,9 +592,9 @@ end axis
 
 /-! ### non-vacuity: concrete non-trivial inputs meet the hypotheses (evaluated by the kernel) -/
 
-example : SusValid (α := ℚ) [3, 0, 2, 1] [2, 3] := ⟨by decide, by decide +kernel, by decide⟩
+example : SusValid (α := ℚ) [3, 0, 2, 1] := ⟨by decide, by decide +kernel⟩
 example : SusOracle (α := ℚ) [3, 0, 2, 1] [2, 3] [0, 2, 3, 1] (1/2) [5, 4, 3, 2, 1, 0] :=
-  ⟨by decide, by decide +kernel, by decide +kernel, by decide +kernel, by decide⟩
+  ⟨by decide, by decide +kernel, fun _ => ⟨by decide +kernel, by decide +kernel⟩, by decide⟩
 example : (susDraws (α := ℚ) [3, 0, 2, 1] [2, 3] [0, 2, 3, 1] (1/2) [5, 4, 3, 2, 1, 0]).toOption
     = some [3, 2, 2, 0, 0, 0] := by decide +kernel
 example : (sus (α := ℚ) [10, 11, 12, 13] [3, 0, 2, 1] [2, 3] [0, 2, 3, 1] (1/2) [5, 4, 3, 2, 1, 0]).toOption
@@ -627,9 +608,12 @@ example : (([1, 1, 1] : List ℚ).getD ([2, 1, 0] : List Nat)[0] 0 < Np.sum ([1,
 example : (susIdxPrerepair (α := ℚ) [3, 2, 1] 6 [0, 1, 2] 0).toOption = some [0, 0, 0, 0, 1, 1] := by decide +kernel
 example : (susIdx (α := ℚ) [3, 2, 1] 6 [0, 1, 2] 0).toOption = some [0, 0, 0, 1, 1, 2] := by decide +kernel
 example : (susIdx (α := ℚ) [1, 1, 1] 3 [2, 1, 0] 0).toOption = some [2, 1, 0] := by decide +kernel
-example : SusValid (α := ℚ) [1, 1, 1] [3] ∧ SusOracle (α := ℚ) [1, 1, 1] [3] [2, 1, 0] 0 [0, 1, 2] :=
-  ⟨⟨by decide, by decide +kernel, by decide⟩,
-   ⟨by decide, by decide +kernel, by decide +kernel, by decide +kernel, by decide⟩⟩
+example : SusValid (α := ℚ) [1, 1, 1] ∧ SusOracle (α := ℚ) [1, 1, 1] [3] [2, 1, 0] 0 [0, 1, 2] :=
+  ⟨⟨by decide, by decide +kernel⟩,
+   ⟨by decide, by decide +kernel, fun _ => ⟨by decide +kernel, by decide +kernel⟩, by decide⟩⟩
+-- the empty request: hypotheses of `sus_returns_requested_number` with prod(size) = 0, and the model's answer
+example : SusOracle (α := ℚ) [1, 2] [2, 0] [1, 0] 0 [] := ⟨by decide, by decide +kernel, fun h => absurd h (by decide), by decide⟩
+example : (susDraws (α := ℚ) [1, 2] [2, 0] [1, 0] 0 []).toOption = some [] := by decide +kernel
 -- a pointer exactly on a boundary with an interior offset (ties are covered by the partial theorem)
 example : (susDraws (α := ℚ) [1, 1, 1, 1] [8] [3, 2, 1, 0] (1/4) [0, 1, 2, 3, 4, 5, 6, 7]).toOption
     = some [3, 3, 2, 2, 1, 1, 0, 0] := by decide +kernel
@@ -642,8 +626,6 @@ example : ∀ r < (([3, 2, 1] : List ℚ).filter (fun x => decide (0 < x) || dec
   decide +kernel
 example : (axisShuffleLoop (β := Nat) [2, 3] [1] [0, 1, 2, 3, 4, 5] [[1, 0], [0, 1], [1, 0]]).toOption
     = some [3, 1, 5, 0, 4, 2] := by decide
-example : (outcrossNd (β := Nat) true 3 2 [1, 1, 2, 2, 3, 4] [allPairs 6, allPairs 6, allPairs 6]).toOption
-    = some [2, 1, 1, 2, 3, 4] := by decide
 example : (tiledIdx 3 7 false [1] [6, 5, 4, 3, 2, 1, 0]).toOption = some [1, 2, 1, 0, 2, 1, 0] := by decide
 example : (tiledChoice [5, 6, 7] [7] false [1] [6, 5, 4, 3, 2, 1, 0]).toOption = some [6, 7, 6, 5, 7, 6, 5] := by decide
 
